@@ -67,7 +67,10 @@ TotalRuns == <<Run("json", <<"json">>), Run("total:plain", <<"total", "--diff", 
                Run("today", <<"today", "--diff", "--decimal", "--no-warn">>),
                [Run("today:now", <<"today", "--diff", "--decimal", "--now", "--no-warn">>) EXCEPT !.now = TRUE],
                [Run("report:day:plain", <<"report", "--decimal", "--diff", "--now", "--no-warn">>) EXCEPT !.now = TRUE],
-               [Run("report:week:fill", <<"report", "--aggregate", "week", "--fill", "--decimal", "--now", "--no-warn">>) EXCEPT !.now = TRUE]>>
+               [Run("report:week:fill", <<"report", "--aggregate", "week", "--fill", "--decimal", "--now", "--no-warn">>) EXCEPT !.now = TRUE],
+               (* beyond the listed properties: the warnings (KWarn) *)
+               Run("warn:all", <<"print", "--no-style">>),
+               [Run("warn:cfg", <<"total">>) EXCEPT !.cfg = "no_warnings = UNCLOSED_OPEN_RANGE, OVERLAPPING_RANGES\n"]>>
 TotalShards == {[k |-> "total", a |-> i, b |-> j] : i \in 1..NVals, j \in 0..NVals}
 TotalCases(sh) ==
     LET es == IF sh.b = 0 THEN <<E(Vals[sh.a], "")>>
